@@ -282,8 +282,13 @@ func (m *BasicMutableWorld) AddTag(id b6.FeatureID, tag b6.Tag) error {
 				m.index.Remove(f, []string{tokenBefore})
 			}
 		}
+		// A point with no tags other than its location isn't indexed at all
+		// (see TokensForFeature), so it needs all of its tokens adding
+		untagged := f.FeatureID().Type == b6.FeatureTypePoint && len(f.AllTags()) == 1
 		f.ModifyOrAddTag(tag)
-		if indexedAfter && (!indexedBefore || tokenAfter != tokenBefore) {
+		if untagged {
+			m.index.Add(f, TokensForFeature(WrapFeature(f, m)))
+		} else if indexedAfter && (!indexedBefore || tokenAfter != tokenBefore) {
 			m.index.Add(f, []string{tokenAfter})
 		}
 		return nil
@@ -896,8 +901,13 @@ func (m *MutableOverlayWorld) AddTag(id b6.FeatureID, tag b6.Tag) error {
 				m.index.Remove(f, []string{tokenBefore})
 			}
 		}
+		// A point with no tags other than its location isn't indexed at all
+		// (see TokensForFeature), so it needs all of its tokens adding
+		untagged := f.FeatureID().Type == b6.FeatureTypePoint && len(f.AllTags()) == 1
 		f.ModifyOrAddTag(tag)
-		if indexedAfter && (!indexedBefore || tokenBefore != tokenAfter) {
+		if untagged {
+			m.index.Add(f, TokensForFeature(WrapFeature(f, m)))
+		} else if indexedAfter && (!indexedBefore || tokenBefore != tokenAfter) {
 			m.index.Add(f, []string{tokenAfter})
 		}
 	} else {
